@@ -1318,3 +1318,42 @@ Proof.
     vm_compute in Hi1. discriminate.
   - cbv [skipn] in Hi. subst more. subst k. vm_compute in Hk. discriminate.
 Qed.
+
+(* <b><strong></strong></b> under output.formatLeafNode: the inline leaf <strong> is not line-broken, its tabstop and
+   its closing tag go on lines of their own: the closing tag has 1 unit, its opening tag stands on the first line *)
+Definition ax_cfg : oconfig :=
+  mkOconfig (mkOfmt [9] [] [10])%N [] [] [] true true [] [] 3 false [] s_html [[98]; [115;116;114;111;110;103]]%N
+            false [] [] [] false None None.
+Definition ax_tree : list anode :=
+  [ANode (Some [98]%N) None None None [ANode (Some [115;116;114;111;110;103]%N) None None None [] false] false].
+
+Lemma close_aligned_inline_leaf_refuted :
+  oc_format_skip ax_cfg = [] /\ cfg_depth ax_cfg = true /\ depth_dom ax_cfg ax_tree = true /\ align_dom ax_cfg ax_tree = false /\
+  ~ lines_aligned (oc_fmt ax_cfg) (flat_map (tree_events ax_cfg) ax_tree) (fchunks (html_format ax_cfg ax_tree)).
+Proof.
+  split; [reflexivity|]. split; [reflexivity|]. split; [reflexivity|]. split; [reflexivity|]. intros H.
+  match type of H with lines_aligned _ _ ?X =>
+    let X' := eval vm_compute in X in
+    specialize (H (firstn 7 X') match nth_error X' 7 with Some (CT _ s) => s | _ => [] end (skipn 8 X'))
+  end.
+  match type of H with ?A -> _ => assert (G : A) by (vm_compute; reflexivity); specialize (H G); clear G end.
+  destruct H as [k [more [Hi [Hk Ha]]]]. destruct Hi as [Hi|[Hi0 Hi]].
+  - cbv [skipn] in Hi. unfold indent_chunk in Hi. injection Hi as Hi1 Hi2. subst more. vm_compute in Hk. subst k.
+    specialize (Ha eq_refl). cbv [firstn] in Ha.
+    specialize (Ha [CT false [60;98]; CT false [62]]%N (CT false [60;115;116;114;111;110;103]%N)
+                   [CT false [62]; CT true [10]; CT false [9;9]; CF 1 []]%N eq_refl).
+    assert (Ho : opens_innermost (flat_map (tree_events ax_cfg) ax_tree) [CT false [60;98]; CT false [62]]%N
+                   (CT false [60;115;116;114;111;110;103]%N) [CT false [62]; CT true [10]; CT false [9;9]; CF 1 []]%N).
+    { split; [vm_compute; reflexivity|]. split; [vm_compute; reflexivity|].
+      intros B1 B2 HB.
+      destruct B1 as [|x1 B1]; [vm_compute; discriminate|]. cbn [app] in HB. injection HB as <- HB.
+      destruct B1 as [|x2 B1]; [vm_compute; discriminate|]. cbn [app] in HB. injection HB as <- HB.
+      destruct B1 as [|x3 B1]; [vm_compute; discriminate|]. cbn [app] in HB. injection HB as <- HB.
+      destruct B1 as [|x4 B1]; [vm_compute; discriminate|]. cbn [app] in HB. injection HB as <- HB.
+      destruct B1 as [|x5 B1]; [vm_compute; discriminate|]. discriminate. }
+    destruct (Ha Ho) as [[_ Hk0]|[A1 [rest [more [HA _]]]]]; [discriminate|].
+    destruct A1 as [|a1 A1]; [discriminate|]. cbn [app] in HA. injection HA as _ HA.
+    destruct A1 as [|a2 A1]; [discriminate|]. cbn [app] in HA. injection HA as _ HA.
+    destruct A1; discriminate.
+  - cbv [skipn] in Hi. subst more. subst k. vm_compute in Hk. discriminate.
+Qed.
